@@ -103,8 +103,9 @@ end Eapol
 def parseEapol (b : Bytes) : Except Exc (Option Eapol) :=
   if b.length < 5 then .error .malformedPacket else
   let dataLen := (b.getD 2 0).toNat * 256 + (b.getD 3 0).toNat + 4
-  let b := b.take (min b.length dataLen)
+  -- `switch (ptr->type)` reads the caller's buffer, whatever `total_sz = min(total_sz, data_len)` has become
   let t := b.getD 4 0
+  let b := b.take (min b.length dataLen)
   if t == 2 || t == 254 then
     if b.length < 99 then .error .malformedPacket else
     let hdr := (b.drop 5).take 94
